@@ -97,14 +97,18 @@ Definition Good (t : torrent) (a : acc) : Prop := Inv t (a_st a) /\ EffsOk t (a_
 Lemma inv_iff : forall t s, inv t s = true <-> Inv t s.
 Proof.
   intros t s. unfold inv, Inv. rewrite !andb_true_iff, !Z.eqb_eq, forallb_forall, Forall_forall.
-  split; intros [[H1 H2] H3]; (split; [|split]); auto; intros [q b] Hin; apply (H3 (q, b) Hin).
+  split.
+  - intros [[H1 H2] H3]. repeat split; auto. intros [q b] Hin. apply (H3 (q, b) Hin).
+  - intros [H1 [H2 H3]]. repeat split; auto. intros [q b] Hin. apply (H3 (q, b) Hin).
 Qed.
 
 Lemma clean_spec : forall n b, clean n b = true <->
   blen b = n /\ zlen (bbits b) = 64 * ((n + 63) / 64) /\ forall i, In i (set_idxs b) -> i < n.
 Proof.
   intros n b. unfold clean. rewrite !andb_true_iff, !Z.eqb_eq, forallb_forall.
-  split; intros [[H1 H2] H3]; (split; [|split]); auto; intros i Hi; specialize (H3 i Hi); lia.
+  split.
+  - intros [[H1 H2] H3]. repeat split; auto. intros i Hi. specialize (H3 i Hi). apply Z.ltb_lt in H3. lia.
+  - intros [H1 [H2 H3]]. repeat split; auto. intros i Hi. apply Z.ltb_lt. auto.
 Qed.
 
 Lemma clean_idx : forall n b i, clean n b = true -> In i (set_idxs b) -> 0 <= i < n.
@@ -153,7 +157,16 @@ Hypothesis WF : wf_torrent t = true.
 
 Lemma wf_facts : 1 <= t_n t /\ 1 <= t_p t /\ t_p t * (t_n t - 1) < t_len t /\ t_len t <= t_p t * t_n t.
 Proof.
-  unfold wf_torrent in WF. rewrite !andb_true_iff, !Z.leb_le, Z.ltb_lt in WF. tauto.
+  unfold wf_torrent in WF. rewrite !andb_true_iff, !Z.leb_le, !Z.ltb_lt in WF. tauto.
+Qed.
+
+Lemma p_small : t_p t < 2 ^ 31.
+Proof. unfold wf_torrent in WF. rewrite !andb_true_iff, !Z.leb_le, !Z.ltb_lt in WF. tauto. Qed.
+
+Lemma n_small : t_n t < two64.
+Proof.
+  unfold wf_torrent in WF. rewrite !andb_true_iff, !Z.leb_le, !Z.ltb_lt in WF.
+  assert (2 ^ 63 < two64) by (unfold two64; lia). lia.
 Qed.
 
 Lemma plen_range : forall i, 0 <= i < t_n t -> 1 <= plen t i <= t_p t /\ 0 <= t_p t * i /\ t_p t * i + plen t i <= t_len t.
@@ -265,14 +278,11 @@ Proof.
   destruct Hj as [->|Hj]; [rewrite Z2Nat.id; lia | now apply H3].
 Qed.
 
-Lemma n_lt_two64 : forall s, Inv t s -> True.
-Proof. trivial. Qed.
-
-Lemma set_bit_good : forall a q i, Good t a -> 0 <= i < t_n t -> t_n t <= two64 ->
+Lemma set_bit_good : forall a q i, Good t a -> 0 <= i < t_n t ->
   exists a', set_bit_of a q i = Some a' /\ Good t a' /\ d_have (a_st a') = d_have (a_st a) /\
              d_cnt (a_st a') = d_cnt (a_st a).
 Proof.
-  intros a q i HG Hi Hn. unfold set_bit_of.
+  intros a q i HG Hi. pose proof n_small as Hn. unfold set_bit_of.
   assert (G1 : Good t (emit a (EBit i))) by (apply good_emit; auto; simpl; now apply in_range_iff).
   simpl. destruct (find_peer (d_peers (a_st a)) q) as [b|] eqn:Hf.
   - assert (Hb : clean (t_n t) b = true) by (eapply find_peer_clean; [apply HG | eauto]).
@@ -281,6 +291,193 @@ Proof.
     eexists; split; [reflexivity|]. destruct G1 as [[H1 [H2 H3]] HE]. simpl in *.
     repeat split; simpl; auto. apply Forall_set_peer; auto.
   - eexists; split; [reflexivity|]. repeat split; auto; apply G1.
+Qed.
+
+(* ------------------------------------------------------------------ handlers of the patched code *)
+Lemma good_mark_invalid : forall a q i, Good t a -> Good t (do_mark_invalid a q i).
+Proof. intros a q i [[H1 [H2 H3]] HE]. repeat split; simpl; auto. Qed.
+
+Lemma do_complete_good : forall a, Good t a ->
+  Good t (do_complete a) /\ a_st (do_complete a) = a_st a.
+Proof.
+  intros a HG. unfold do_complete. generalize (d_peers (a_st a)) as ps. intros ps. revert a HG.
+  induction ps as [|[q b] ps IH]; intros a HG; simpl; [auto|].
+  match goal with |- context [fold_left ?f ps ?x] => set (a1 := x) end.
+  assert (G1 : Good t a1 /\ a_st a1 = a_st a).
+  { subst a1. destruct (b_all b); (split; [apply good_emit; auto | reflexivity]). }
+  destruct G1 as [G1 E1]. destruct (IH a1 G1) as [G2 E2]. split; auto. congruence.
+Qed.
+
+Lemma announce_others_good : forall a q i, Good t a -> 0 <= i < t_n t ->
+  Good t (announce_others a q i) /\ a_st (announce_others a q i) = a_st a.
+Proof.
+  intros a q i HG Hi. unfold announce_others. generalize (d_peers (a_st a)) as ps. intros ps. revert a HG.
+  induction ps as [|[q' b] ps IH]; intros a HG; simpl; [auto|].
+  match goal with |- context [fold_left ?f ps ?x] => set (a1 := x) end.
+  assert (G1 : Good t a1 /\ a_st a1 = a_st a).
+  { subst a1. destruct ((q' =? q) || existsb (Z.eqb q') (closed_of (a_eff a))); [auto|].
+    split; [|reflexivity]. apply good_emit; auto. simpl. now apply in_range_iff. }
+  destruct G1 as [G1 E1]. destruct (IH a1 G1) as [G2 E2]. split; auto. congruence.
+Qed.
+
+Lemma get_piece_fixed : forall i,
+  get_piece gfixed t i = Some (in_range t i).
+Proof.
+  intros i. unfold get_piece, in_range. simpl.
+  destruct (t_n t <=? i) eqn:E1; destruct (i <? 0) eqn:E2; simpl;
+    rewrite ?Z.leb_le, ?Z.leb_gt, ?Z.ltb_lt, ?Z.ltb_ge in *; f_equal; symmetry;
+    rewrite ?andb_true_iff, ?andb_false_iff, ?Z.leb_le, ?Z.leb_gt, ?Z.ltb_lt, ?Z.ltb_ge; try lia.
+Qed.
+
+Lemma serve_good : forall a q i, Good t a -> 0 <= i < t_n t ->
+  exists a', set_bit_of (emit (emit a (ESend q (RPay i (plen t i) (in_range t i)))) (EFileRd (t_p t * i) (plen t i))) q i = Some a'
+             /\ Good t a' /\ d_have (a_st a') = d_have (a_st a).
+Proof.
+  intros a q i HG Hi. destruct (plen_range i Hi) as [[Hl1 Hl2] [Ho1 Ho2]].
+  assert (Hr : in_range t i = true) by now apply in_range_iff.
+  match goal with |- context [set_bit_of ?x q i] => assert (G1 : Good t x) end.
+  { apply good_emit; [apply good_emit; auto|]; simpl.
+    - now rewrite Hr, Z.eqb_refl.
+    - rewrite !andb_true_iff, !Z.leb_le. lia. }
+  destruct (set_bit_good _ q i G1 Hi) as [a' [E [G' [A' _]]]]. exists a'. repeat split; auto; apply G'.
+Qed.
+
+Lemma handle_request_good : forall a q i off len, Good t a ->
+  exists a', handle_request gfixed t a q i off len = Some a' /\ Good t a' /\ d_have (a_st a') = d_have (a_st a).
+Proof.
+  intros a q i off len HG. unfold handle_request.
+  assert (GE : forall a0, Good t a0 -> Good t (emit a0 (ESend q (RErr i 0)))) by (intros; now apply good_emit).
+  destruct (is_full t i off len); simpl; [|eexists; split; [reflexivity|]; split; [auto|reflexivity]].
+  destruct (t_kind t).
+  - rewrite get_piece_fixed. destruct (in_range t i) eqn:Hr.
+    + apply in_range_iff in Hr. simpl.
+      destruct (zget (d_have (a_st a)) i false).
+      * assert (G1 : Good t (emit a (EPiece i))) by (apply good_emit; auto; simpl; now apply in_range_iff).
+        destruct (serve_good _ q i G1 Hr) as [a' [E [G' A']]]. exists a'. repeat split; auto; apply G'.
+      * eexists; split; [reflexivity|]. split; [|reflexivity]. apply GE. apply good_emit; auto. simpl. now apply in_range_iff.
+    + eexists; split; [reflexivity|]. split; [auto|reflexivity].
+  - destruct (t_n t <=? i) eqn:E1; [eexists; split; [reflexivity|]; split; [auto|reflexivity]|].
+    destruct (i <? 0) eqn:E2; simpl; [eexists; split; [reflexivity|]; split; [auto|reflexivity]|].
+    apply Z.leb_gt in E1. apply Z.ltb_ge in E2.
+    destruct (serve_good a q i HG (conj E2 E1)) as [a' [E [G' A']]]. exists a'. repeat split; auto; apply G'.
+Qed.
+
+Lemma handle_payload_good : forall a q i off len sumok, Good t a ->
+  exists a', handle_payload gfixed t a q i off len sumok = Some a' /\ Good t a'.
+Proof.
+  intros a q i off len sumok HG. unfold handle_payload.
+  destruct (is_full t i off len) eqn:Hfull; simpl; [|eexists; split; [reflexivity|]; now apply good_mark_invalid].
+  destruct (t_kind t); [|eexists; split; [reflexivity|]; now apply good_mark_invalid].
+  rewrite get_piece_fixed. destruct (in_range t i) eqn:Hr; [|eexists; split; [reflexivity|]; now apply good_mark_invalid].
+  apply in_range_iff in Hr.
+  assert (G1 : Good t (emit a (EPiece i))) by (apply good_emit; auto; simpl; now apply in_range_iff).
+  destruct (zget (d_have (a_st a)) i false); [eexists; split; [reflexivity|]; auto|].
+  unfold is_full in Hfull. apply andb_true_iff in Hfull. destruct Hfull as [_ Hlen]. apply Z.eqb_eq in Hlen.
+  destruct (plen_range i Hr) as [[Hl1 Hl2] [Ho1 Ho2]].
+  assert (G2 : Good t (emit (emit a (EPiece i)) (EFileWr (t_p t * i) len))).
+  { apply good_emit; auto. simpl. rewrite !andb_true_iff, !Z.leb_le. lia. }
+  destruct sumok; simpl; [|eexists; split; [reflexivity|]; now apply good_mark_invalid].
+  eexists; split; [reflexivity|].
+  match goal with |- Good t (announce_others ?x q i) => assert (G5 : Good t x) end.
+  { match goal with |- Good t (if ?c then ?x else request_more t ?x q) =>
+      assert (G4 : Good t x); [|destruct c; [exact G4 | apply request_more_good; exact G4]] end.
+    match goal with |- Good t (with_st ?x _) => assert (G3 : Good t x) end.
+    { assert (G3' : Good t (with_st (emit (emit a (EPiece i)) (EFileWr (t_p t * i) len))
+                    (mkd (zset (d_have (a_st a)) i true) (d_peers (a_st a)) (d_cnt (a_st a)) (d_reqs (a_st a))))).
+      { destruct G2 as [[H1 [H2 H3]] HE]. simpl in *. repeat split; simpl; auto. now rewrite zlen_zset. }
+      match goal with |- Good t (if ?c then _ else _) => destruct c end; [apply do_complete_good|]; exact G3'. }
+    destruct G3 as [[H1 [H2 H3]] HE]. repeat split; simpl; auto. }
+  apply announce_others_good; auto.
+Qed.
+
+Lemma handle_announce_good : forall a q i, Good t a ->
+  exists a', handle_announce gfixed t a q i = Some a' /\ Good t a' /\ d_have (a_st a') = d_have (a_st a).
+Proof.
+  intros a q i HG. unfold handle_announce. simpl.
+  destruct ((t_n t <=? i) || (i <? 0)) eqn:E; [exists a; repeat split; auto; apply HG|].
+  apply orb_false_iff in E. destruct E as [E1 E2]. apply Z.leb_gt in E1. apply Z.ltb_ge in E2.
+  destruct (set_bit_good a q i HG (conj E2 E1)) as [a1 [X1 [G1 [A1 _]]]]. rewrite X1.
+  destruct (cnt_add_good a1 i 1 G1 (conj E2 E1)) as [a2 [X2 [G2 [A2 _]]]]. rewrite X2.
+  eexists; split; [reflexivity|]. destruct (request_more_good a2 q G2) as [G3 [A3 _]]. split; auto. congruence.
+Qed.
+
+Lemma b_setall_clean : forall b, clean (t_n t) b = true -> clean (t_n t) (b_setall b) = true.
+Proof.
+  intros b Hc. apply clean_spec in Hc. destruct Hc as [H1 [H2 H3]]. apply clean_spec. unfold b_setall. simpl.
+  repeat split; auto.
+  - unfold zlen in *. now rewrite length_setall_from.
+  - intros i Hi. unfold set_idxs in Hi. simpl in Hi. apply set_from_setall in Hi. destruct Hi; [lia|]. now apply H3.
+Qed.
+
+Lemma handle_complete_good : forall a q, Good t a ->
+  Good t (handle_complete t a q) /\ d_have (a_st (handle_complete t a q)) = d_have (a_st a).
+Proof.
+  intros a q HG. unfold handle_complete. destruct (all_have (a_st a)); [split; [now apply good_emit | reflexivity]|].
+  destruct (find_peer (d_peers (a_st a)) q) as [b|] eqn:Hf; [|auto].
+  assert (Hb : clean (t_n t) b = true) by (eapply find_peer_clean; [apply HG | eauto]).
+  match goal with |- context [request_more t ?x q] => assert (G1 : Good t x) end.
+  { destruct HG as [[H1 [H2 H3]] HE]. repeat split; simpl; auto. apply Forall_set_peer; auto.
+    intros; simpl. now apply b_setall_clean. }
+  destruct (request_more_good _ q G1) as [G2 [A2 _]]. split; auto.
+Qed.
+
+Lemma dispatch_good : forall a q m, Good t a ->
+  exists a', dispatch gfixed t a q m = Some a' /\ Good t a'.
+Proof.
+  intros a q m HG. unfold dispatch. simpl.
+  destruct (m_ty m =? 5).
+  { destruct (m_err m) as [[i c]|]; [|eauto]. eexists; split; [reflexivity|].
+    destruct (c =? 0); auto. now apply good_mark_invalid. }
+  destruct (m_ty m =? 3).
+  { destruct (m_ann m) as [i|]; [|eauto].
+    destruct (handle_announce_good a q i HG) as [a' [E [G _]]]; eauto. }
+  destruct (m_ty m =? 1).
+  { destruct (m_req m) as [[[i off] len]|]; [|eauto].
+    destruct (handle_request_good a q i off len HG) as [a' [E [G _]]]; eauto. }
+  destruct (m_ty m =? 2).
+  { destruct (m_pay m) as [[[i off] len]|]; [|eauto]. apply handle_payload_good; auto. }
+  destruct (m_ty m =? 6); [|eauto].
+  eexists; split; [reflexivity|]. now apply handle_complete_good.
+Qed.
+
+Lemma max_msg_le_bound : max_msg <= alloc_bound t.
+Proof. unfold alloc_bound; lia. Qed.
+
+Lemma recv_good : forall a q m, Good t a -> exists a', recv gfixed t a q m = Some a' /\ Good t a'.
+Proof.
+  intros a q m HG. unfold recv. simpl.
+  destruct (max_msg <? m_size m) eqn:Es; [eexists; split; [reflexivity|]; now apply good_emit|].
+  apply Z.ltb_ge in Es.
+  assert (G1 : Good t (emit a (EAlloc (m_size m)))).
+  { apply good_emit; auto. simpl. apply Z.leb_le. pose proof max_msg_le_bound. lia. }
+  destruct (m_ok m); simpl; [|eexists; split; [reflexivity|]; now apply good_emit].
+  destruct (m_ty m =? 2); [|now apply dispatch_good].
+  destruct (m_pay m) as [[[i off] len]|] eqn:Ep; [|eexists; split; [reflexivity|]; now apply good_emit].
+  destruct ((len <? 0) || (t_p t <? len)) eqn:El; [eexists; split; [reflexivity|]; now apply good_emit|].
+  apply orb_false_iff in El. destruct El as [El1 El2]. rewrite El1. apply Z.ltb_ge in El1, El2.
+  pose proof p_small as Hp.
+  replace (max_alloc <? len) with false by (symmetry; apply Z.ltb_ge; unfold max_alloc; lia). simpl.
+  assert (G2 : Good t (emit (emit a (EAlloc (m_size m))) (EAlloc len))).
+  { apply good_emit; auto. simpl. apply Z.leb_le. unfold alloc_bound. lia. }
+  destruct (m_deliver m); simpl; [|eexists; split; [reflexivity|]; now apply good_emit].
+  now apply dispatch_good.
+Qed.
+
+Lemma step_good : forall s q m, Inv t s ->
+  exists a', step gfixed t s q m = Some a' /\ Good t a'.
+Proof.
+  intros s q m HI. unfold step.
+  assert (G0 : Good t (mka s [])) by (split; [exact HI | constructor]).
+  destruct (find_peer (d_peers s) q); [|eauto].
+  destruct (recv_good (mka s []) q m G0) as [a1 [E1 G1]]. rewrite E1. unfold finish.
+  destruct (remove_peers_good (closed_of (a_eff a1)) a1 G1) as [a2 [E2 [G2 _]]]. eauto.
+Qed.
+
+Lemma hangup_good : forall s q, Inv t s -> exists a', hangup s q = Some a' /\ Good t a'.
+Proof.
+  intros s q HI. unfold hangup.
+  assert (G0 : Good t (mka s [])) by (split; [exact HI | constructor]).
+  destruct (remove_peer_good (mka s []) q G0) as [a' [E [G _]]]. eauto.
 Qed.
 
 End WithTorrent.
